@@ -1,5 +1,6 @@
 import NrDaemon.Model.Trigger
 import NrDaemon.Gen.SwapTable
+import NrDaemon.Props.Tied
 /-!
   C12 — harvest cadence follows the negotiated periods and stops cleanly.
 -/
@@ -748,3 +749,13 @@ theorem C12_period_guards_tied :
       ["SpanEventHarvestConfig:rawConfig.ReportPeriodMS==0||rawConfig.ReportPeriodMS>maxReportPeriodMS",
        "EventHarvestConfig:rawConfig.ReportPeriodMS==0||rawConfig.ReportPeriodMS>maxReportPeriodMS"] := by
   decide
+
+/-- **C12 (tie: the all-at-once decision is the code's).**  The model's `isHarvestAll` equals
+`(*ConnectReply).isHarvestAll` as translated from harvest_trigger.go on this run, for every negotiated configuration;
+a nil reply means all-at-once. -/
+theorem C12_isHarvestAll_tied (n : Negotiated) :
+    isHarvestAll n =
+      Gen.Decisions.isHarvestAll (n.cfgs.txn.period : Int) (n.cfgs.custom.period : Int) (n.cfgs.err.period : Int)
+        (n.cfgs.log.period : Int) (n.cfgs.span.period : Int) (n.reportPeriod : Int) true ∧
+    (∀ a b c d e f : Int, Gen.Decisions.isHarvestAll a b c d e f false = true) :=
+  ⟨tied_isHarvestAll n, tied_isHarvestAll_nil⟩
